@@ -119,6 +119,11 @@ def gen_model(rng, rich):
         for a in range(3):
             if rng.random() < 0.3 and ops[0]["chops"][a]:
                 ops[0]["chops"][a] = [dict(start_size=rng.choice([0.5, 1.0, 1.5]))]
+            elif rng.random() < 0.3 and ops[0]["chops"][a] and len(ops[0]["chops"][a]) == 1:
+                # a prescribed count and ratio whose PRESERVED quantity (a cell size) follows the edge lengths
+                n0 = ops[0]["chops"][a][0].get("count", 4)
+                ops[0]["chops"][a] = [dict(count=n0, preserve=rng.choice(["start_size", "end_size"]),
+                                           **{rng.choice(["c2c_expansion", "total_expansion"]): rng.choice([1.2, 0.8, 2.0])})]
         for d in ops:
             if rng.random() < 0.4:
                 i = rng.randrange(4)
